@@ -312,13 +312,22 @@ impl<A: Read + Write + io::Seek> ZipWriter<A> {
 
         let files = (0..number_of_files)
             .map(|_| {
-                central_header_to_zip_file(&mut readwriter, archive_offset).map(|mut file| {
+                central_header_to_zip_file(&mut readwriter, archive_offset).and_then(|mut file| {
+                    // The central directory is rewritten from the decoded names. A CP437 name (or
+                    // a name with ill-formed UTF-8) can need more UTF-8 bytes than the 16-bit name
+                    // length field holds; such a record cannot be written back, so the archive is
+                    // refused before anything in it is overwritten.
+                    if file.file_name.len() > u16::MAX as usize {
+                        return Err(ZipError::UnsupportedArchive(
+                            "File name is too long to be rewritten",
+                        ));
+                    }
                     // The ZIP64 extended information record is regenerated from the sizes and the
                     // offset when the central directory is rewritten. An inherited copy would follow
                     // the new one, and readers apply it a second time whenever a real value equals
                     // the 0xFFFFFFFF placeholder.
                     file.extra_field = strip_zip64_extra_field(&file.extra_field);
-                    file
+                    Ok(file)
                 })
             })
             .collect::<Result<Vec<_>, _>>()?;
